@@ -7,12 +7,12 @@ RULE = 'Same program space as C09 with key-bearing operations weighted up (expli
 ASSUMPTIONS = ['live SQLite (in-memory) with foreign keys enforced immediately',
                'reference store vlib/refstore.py written from the documented relationship/cascade/key semantics (DESIGN.md section 7a)',
                'table and column names are taken from the mapping metadata (names only)']
-SHARDS = {'quick': 4, 'thorough': 16}
-MIN_EVALS = {'quick': 400, 'thorough': 5000}
+SHARDS = {'quick': 8, 'thorough': 16}
+MIN_EVALS = {'quick': 2000, 'thorough': 5000}
 PROPS = {'C14'}
 WEIGHTS = {'create': 8, 'set': 7, 'setm': 4, 'del': 2, 'commit': 2, 'flush': 2, 'rekey': 4}
 
-run = sesscheck.make_run(ID, PROPS, 500, 6000, weights=WEIGHTS,
+run = sesscheck.make_run(ID, PROPS, 700, 6000, weights=WEIGHTS,
                          nontrivial=lambda program, stats: stats.get('conflict_deferred', 0) > 0 or stats.get('call_failed:CacheIndexError', 0) > 0 or stats.get('tx_failures', 0) > 0)
 replay = sesscheck.make_replay(ID, PROPS)
 
